@@ -785,7 +785,8 @@ def build_sequence(spec):
     from pulser.devices import MockDevice
 
     n = spec["n"]
-    reg = pulser.Register.from_coordinates([(spec.get("spacing", 8.0) * i, 0.0) for i in range(n)], prefix="q")
+    coords = spec.get("coords") or [(spec.get("spacing", 8.0) * i, 0.0) for i in range(n)]
+    reg = pulser.Register.from_coordinates([tuple(c) for c in coords], prefix="q")
     seq = pulser.Sequence(reg, MockDevice)
     declared = set()
     for seg in spec["segments"]:
